@@ -29,11 +29,17 @@ func New(config Configuration, statsdClient *statsd.Client) (*SSOProxy, error) {
 
 	hostRouter := hostmux.NewRouter()
 	for _, upstreamConfig := range config.UpstreamConfigs.upstreamConfigs {
+		// an upstream that configures its own provider_slug is served by that provider,
+		// not by the deployment default
+		providerUpstreamConfigs := config.UpstreamConfigs
+		if upstreamConfig.ProviderSlug != "" {
+			providerUpstreamConfigs.DefaultConfig.ProviderSlug = upstreamConfig.ProviderSlug
+		}
 		provider, err := newProvider(
 			config.ClientConfig,
 			config.ProviderConfig,
 			config.SessionConfig,
-			config.UpstreamConfigs,
+			providerUpstreamConfigs,
 			statsdClient,
 		)
 		if err != nil {
